@@ -724,6 +724,7 @@ func Worker(args []string) {
 	cases := caseList(thorough)
 	base := observe(cwd, tmp)
 	w := bufio.NewWriter(res)
+	var watchdog *time.Timer
 	for i := range cases {
 		if only >= 0 {
 			if i != only {
@@ -734,6 +735,12 @@ func Worker(args []string) {
 		}
 		fmt.Fprintf(w, "@%d\n", i)
 		w.Flush()
+		// watchdog: a case that hangs ends the worker (exit 91); the parent skips the function and restarts.
+		// It only bounds the enumeration - a skipped case is recorded as a cap, never as a violation.
+		if watchdog != nil {
+			watchdog.Stop()
+		}
+		watchdog = time.AfterFunc(20*time.Second, func() { os.Exit(91) })
 		// a recognisable, marker-free syscall so that a strace hit can be attributed to its case
 		os.Lstat("/verif-c12-case-" + strconv.Itoa(i))
 		out := runCase(i, cases[i], only >= 0)
@@ -742,6 +749,9 @@ func Worker(args []string) {
 		w.Write(b)
 		w.WriteByte('\n')
 		w.Flush()
+	}
+	if watchdog != nil {
+		watchdog.Stop()
 	}
 	fmt.Fprintf(w, "@done\n")
 	w.Flush()
@@ -806,6 +816,9 @@ func runWorker(self, scratch string, shard, n int, tier string, only int, traced
 		cmd.Stdin, cmd.Stdout, cmd.Stderr = stdin, stdout, stderr
 		runErr := cmd.Run()
 		timedOut := c.Err() == context.DeadlineExceeded
+		if ee, ok := runErr.(*exec.ExitError); ok && ee.ExitCode() == 91 {
+			timedOut = true
+		}
 		cancel()
 		stdin.Close()
 		stdout.Close()
